@@ -157,4 +157,18 @@ CHECKS = {
         technique='static must-fact (dominating comparison) dataflow with signedness from the type-checked AST, who-may-write rule, count typestate',
         design_ref='4-C10',
     ),
+    'C18': dict(
+        category='other',
+        text='Decides agreement of the code with the published algorithms at the level of algorithm skeleton and parameters, plus '
+             'the exact-bytes clause - not value equality for all inputs: each hash function is normalised from its AST into an '
+             'ordered event list and compared (modulo variable renaming) with MurmurHash3 x86_32 / x64_128 (framing, body, tail '
+             'byte law, mixes, finaliser, seed, result order), FNV-1 (offset basis, prime from the evaluated shift-add form, '
+             'multiply-then-xor), and MD5 per RFC 1321 (initial state, all 64 steps incl. sine-derived constants, round functions '
+             'by truth table); no branch depends on a data byte and counted scans test the count first; the containers use '
+             'murmur3_32 / MD5 consistently. 150+ obligations, each a single published parameter or law instance.',
+        note='MD5Update/MD5Final buffering, padding and length encoding are not modelled; C integer semantics are as the published '
+             'algorithms assume; no hash value is ever computed by the check.',
+        technique='static AST normalisation to an event list and structural comparison with reference parameter sets; taint-free-branch and count-guard rules',
+        design_ref='3-H, 4-C18',
+    ),
 }
